@@ -146,11 +146,18 @@ type run struct {
 	forkNode     *Fork
 	lastMark     int
 	dir          string // real mode: the directory
+	held         []heldVal // values returned by Get, re-compared after every later step (C08: copy out of the txn)
 	fmtSegs      map[string]*segRec
 	lastBatchSeg string
 	submitted    map[uint64][][]byte // index -> encodings ever submitted (format check, real mode)
 	// index window ever used on this execution path (inherited by forks)
 	minIdx, maxIdx uint64
+}
+
+type heldVal struct {
+	key  int
+	got  []byte
+	snap []byte
 }
 
 type shared struct {
@@ -489,8 +496,12 @@ func (r *run) doStep(s Step) {
 			} else {
 				v, err := r.w.Get(keyBytes(s.Key))
 				ev = map[string]any{"ev": "getk", "key": s.Key, "val": valID(v), "u64": false, "res": errClass(err)}
+				if err == nil && len(v) > 0 {
+					r.held = append(r.held, heldVal{s.Key, v, append([]byte(nil), v...)})
+				}
 			}
 		case "close":
+			r.held = nil // memory handed out by a store must not be touched after Close
 			err := r.w.Close()
 			ev = map[string]any{"ev": "close", "res": errClass(err)}
 			r.w = nil
@@ -499,6 +510,7 @@ func (r *run) doStep(s Step) {
 			ev = nil
 			r.open()
 		case "reopen":
+			r.held = nil
 			err := r.w.Close()
 			r.out.obs(map[string]any{"ev": "close", "res": errClass(err)})
 			r.w = nil
@@ -542,6 +554,29 @@ func (r *run) doStep(s Step) {
 	}
 	if r.job.Metrics && r.w != nil {
 		r.reportMetrics()
+	}
+	if len(r.held) > 0 && s.Op != "getk" && s.Op != "probe" {
+		ok, msg := true, ""
+		func() {
+			// a slice that still points into the store's mmap may even have been unmapped by now
+			old := debug.SetPanicOnFault(true)
+			defer debug.SetPanicOnFault(old)
+			defer func() {
+				if p := recover(); p != nil {
+					ok, msg = false, fmt.Sprintf("reading a value returned earlier by Get faults after a later %s: %v", s.Op, p)
+				}
+			}()
+			for _, h := range r.held {
+				if !bytes.Equal(h.got, h.snap) {
+					ok, msg = false, fmt.Sprintf("value returned by Get(key %d) changed after a later %s", h.key, s.Op)
+					break
+				}
+			}
+		}()
+		r.out.obs(map[string]any{"ev": "alias", "ok": ok, "msg": msg})
+		if !ok {
+			r.held = nil
+		}
 	}
 }
 
@@ -618,7 +653,11 @@ func valBytes(v int) []byte {
 	if v == 1 {
 		return []byte{}
 	}
-	return []byte(fmt.Sprintf("value-%d-%s", v, strings.Repeat("x", v%7)))
+	n := v % 7
+	if v >= 100 {
+		n = 1500 + v // large enough for bolt to move the bucket out of its inline form
+	}
+	return []byte(fmt.Sprintf("value-%d-%s", v, strings.Repeat("x", n)))
 }
 func valID(b []byte) int {
 	if len(b) == 0 {
